@@ -140,6 +140,19 @@ def run(ctx):
             ctx.violation('layering-dirs-repeated:%s' % why, 'with a policy directory configured twice the effective policy is not the layering in configured order: ' + why,
                           {'variant': variant, 'enforce_new_defaults': en, 'why': why, 'policy_dirs': 'd1, d2, d1, d3', 'trace': traces[idx]})
     ctx.cover['configurations_with_repeated_directory'] = sum(len(v) for v in dup.values())
+    # a configured directory that does not exist is skipped wherever it stands in the list - also FIRST
+    af = {}
+    for key, hs in sorted(groups.items()):
+        for hi, h in enumerate(hs):
+            if hi % 7 == 3 and any(op[0] == 'write' and '/' in op[1] for op in h):
+                af.setdefault(key, []).append(h)
+    for (variant, en), hs in sorted(af.items()):
+        traces = [lc.run_history(rng, variant, en, h, absent_first=True) for h in hs]
+        n += len(traces)
+        for idx, why, step in lc.judge_traces(ctx, variant, en, traces, absent_first=True):
+            ctx.violation('layering-missing-dir-first:%s' % why, 'with a missing policy directory configured before the existing ones the effective policy is not the layering: ' + why,
+                          {'variant': variant, 'enforce_new_defaults': en, 'why': why, 'policy_dirs': 'd3 (missing), d1, d2', 'trace': traces[idx]})
+    ctx.cover['configurations_with_missing_directory_first'] = sum(len(v) for v in af.values())
     for (variant, en), hs in sorted(groups.items()):
         traces = [lc.run_history(rng, variant, en, h) for h in hs]
         n += len(traces)
